@@ -82,6 +82,12 @@ static struct c35_rec rec[C35_R > 0 ? C35_R : 1];
 static int c35_name(char *buf)
 {
 	int n;
+#ifdef C35_CONCRETE
+	/* reduced formatter obligation: concrete, pairwise distinct one-letter names ("a", "b", ...): every
+	 * offset is concrete, so the size-limit / TC logic is isolated; compression is harness_labels' subject */
+	{ static int serial; buf[0] = (char)('a' + serial++); for (n = 1; n <= C35_N; n++) buf[n] = 0; }
+	return 1;
+#endif
 	vp_bytes(buf, C35_N);
 	buf[C35_N] = 0;
 #ifdef C35_FIXLEN
@@ -124,8 +130,14 @@ void harness_format(void)
 	req->port = port; port->refcnt = 1;
 	req->trans_id = vp_u16();
 	req->base.flags = vp_u16() & (0x7800 | 0x0100 | 0x0010 | 0x0400 | 0x0080); /* opcode, RD, CD copied from the query; AA/RA set by the caller */
+#ifdef C35_CONCRETE
+	/* complete response: header 12 + question "a" (3+4) + per record: owner (3) + 10 + C35_D */
+#define C35_FULLLEN (12 + C35_Q * 7 + C35_R * (13 + C35_D))
+	req->max_udp_reply_size = (u16)vp_range(C35_FULLLEN - 2, C35_FULLLEN + 2); /* limit around the complete length */
+#else
 	req->max_udp_reply_size = vp_u16();
 	__CPROVER_assume(req->max_udp_reply_size >= 12);
+#endif
 	req->base.nquestions = C35_Q;
 	qv[0] = q; req->base.questions = qv;
 	if (C35_Q) { c35_name(q->name); q->type = vp_u16(); q->dns_question_class = vp_u16(); }
@@ -142,9 +154,18 @@ void harness_format(void)
 #else
 		x->section = (int)vp_range(prev_section, 2); prev_section = x->section;
 #endif
-		x->type = vp_u16(); x->klass = vp_u16(); x->ttl = (int)vp_u32(); x->is_name = vp_bool();
+		x->type = vp_u16(); x->klass = vp_u16(); x->ttl = (int)vp_u32();
+#ifdef C35_CONCRETE
+		x->is_name = 0; /* raw records only */
+#else
+		x->is_name = vp_bool();
+#endif
 		if (x->is_name) { c35_name(x->dname); x->datalen = -1; }
+#ifdef C35_CONCRETE
+		else { x->datalen = C35_D; vp_bytes(x->raw, C35_D); }
+#else
 		else { x->datalen = (int)vp_range(0, C35_D); vp_bytes(x->raw, C35_D); }
+#endif
 		r = evdns_server_request_add_reply(&req->base, x->section, x->name, x->type, x->klass, x->ttl,
 		    x->datalen, x->is_name, x->is_name ? x->dname : (x->datalen ? (const char *)x->raw : NULL));
 		VP_ASSERT(r == 0, "C35: evdns_server_request_add_reply failed (no allocation failure, valid section)");
@@ -169,6 +190,11 @@ void harness_format(void)
 #endif
 	VP_ASSERT((h.flags & ~0x0200u) == (((unsigned)req->base.flags | 0x8000u | (unsigned)err) & 0xffffu), "C35: flags != request flags | QR | rcode");
 	VP_ASSERT(len <= req->max_udp_reply_size, "C35: UDP response longer than the client's size limit");
+#ifdef C35_CONCRETE
+	VP_ASSERT(truncated == (C35_FULLLEN > req->max_udp_reply_size), "C35: TC must be set iff the complete response exceeds the client's size limit");
+	if (!truncated) VP_ASSERT(len == C35_FULLLEN, "C35: untruncated response length != encoded length");
+	if (req->max_udp_reply_size == C35_FULLLEN) VP_WITNESS("response of exactly the size limit");
+#endif
 	/* walk what the reference decoder sees */
 	off = 12;
 	VP_ASSERT(h.qd == C35_Q, "C35: QDCOUNT");
@@ -207,10 +233,16 @@ void harness_format(void)
 		}
 		VP_ASSERT(off == len, "C35: bytes after the last record / response_len != encoded length");
 		VP_ASSERT(dnsref_name_fwdptr == 0, "C35: a compression pointer does not point strictly backwards");
-		if (dnsref_name_nptr > 0 || off < 12 + C35_Q * 6 + C35_R * 12) VP_WITNESS("response decoded");
 		VP_WITNESS("untruncated response decoded");
 	} else {
 		VP_ASSERT(len == req->max_udp_reply_size, "C35: TC set but the message was not cut to the size limit");
+#ifdef C35_STRICT_TRUNC_COUNTS
+		/* "the header counts never describe records that are not present": walk what the counts announce */
+		{ struct dnsref_q rq; struct dnsref_rr rr; int o = 12, ok = 1, c;
+		  for (c = 0; c < C35_Q; c++) if (ok && c < (int)h.qd) { if (dnsref_question(m, len, o, dn, (int)sizeof(dn), &rq) != DNSREF_OK) ok = 0; else o = rq.next; }
+		  for (c = 0; c < C35_R; c++) if (ok && c < (int)(h.an + h.ns + h.ar)) { if (dnsref_rr(m, len, o, dn, (int)sizeof(dn), &rr) != DNSREF_OK) ok = 0; else o = rr.next; }
+		  VP_ASSERT(ok, "C35: truncated response announces (header counts) records that are not completely present"); }
+#endif
 		VP_WITNESS("truncated response");
 	}
 }
